@@ -212,6 +212,19 @@ def check (c):
         judge ('E.repeat', np.linalg.norm (Ec - E) / np.linalg.norm (E), 0.01, 'E at %s, asked again after a request with another power level, deviates from the field of the solved currents' % (np.round (x, 4),), key = 'near-E')
         judge ('H.repeat', np.linalg.norm (Hc - H) / np.linalg.norm (H), 0.01, 'H at %s, asked again after a request with another power level, deviates from the field of the solved currents' % (np.round (x, 4),)
               , key = 'near-H-band-1-to-1.5-segments' if tuple (np.round (x, 9)) in band_pts and np.linalg.norm (Hc - H) / np.linalg.norm (H) <= 0.013 else 'near-H')
+    # ---- the same object at another frequency: the field of the new currents at the new wavelength
+    if refs and not viol:
+        kind, x, E, H = refs [0]
+        f0  = m.f
+        m.f = f0 * (1.23 if spec.get ('f', 1) * 1000 % 2 < 1 else 0.81)
+        observe.solve (m)
+        if nfref.min_distance (m, x) >= 1.0 and np.isfinite (np.asarray (m.current)).all ():
+            common.guarded (lambda: m.compute_near_field (list (x), [1.0, 1.0, 1.0], [1, 1, 1]), 'compute_near_field')
+            Ec, Hc = np.asarray (m.e_field [0]), np.asarray (m.h_field [0])
+            E2, H2 = nfref.fields (m, x, 8)
+            judge ('E.f2', np.linalg.norm (Ec - E2) / np.linalg.norm (E2), 0.01, 'E at %s after the frequency of the object was changed from %.6g to %.6g MHz deviates from the field of the solved currents' % (np.round (x, 4), f0, m.f), key = 'near-E-after-frequency-change')
+            judge ('H.f2', np.linalg.norm (Hc - H2) / np.linalg.norm (H2), 0.013, 'H at %s after the frequency of the object was changed from %.6g to %.6g MHz deviates from the field of the solved currents' % (np.round (x, 4), f0, m.f), key = 'near-H-after-frequency-change')
+        m.f = f0
     if not any (k.startswith ('E.') for k in mon):
         return dict (status = 'inconclusive', reason = 'no admissible observation point / quadrature self-check failed')
     sig = gen.signature (spec, m, extra = ['+'.join (sorted (classes)), 'pwr%d' % (pwr is not None)])
